@@ -7,7 +7,7 @@ from props.c03 import gen_ctor
 
 PID = "C14"
 LEVEL = "proof"
-LEAN_TARGETS = ["SyneTune.Props.C14"]
+LEAN_TARGETS = ["SyneTune.Props.C14", "SyneTune.Props.C14Comp"]
 DRIVER = "SyneTune/Drivers/Hb.lean"
 THEOREMS = [
     "SyneTune.C14.apply_preserves_wf",
@@ -23,6 +23,22 @@ THEOREMS = [
     "SyneTune.C14.policy_rungs",
     "SyneTune.C14.policy_all",
     "SyneTune.C14.policy_rungs_and_last",
+    # composed system scheduler + searcher bookkeeping (Props/C14Comp.lean): invariant over all histories
+    "SyneTune.C14Comp.calls_accepted",
+    "SyneTune.C14Comp.cinv_step",
+    "SyneTune.C14Comp.cinv_all_histories",
+    "SyneTune.C14Comp.init_CInv",
+    "SyneTune.C14Comp.init_CInv_rf",
+    "SyneTune.C14Comp.pending_only_running",
+    "SyneTune.C14Comp.pending_rungs_milestone_nodup",
+    "SyneTune.C14Comp.no_pending_unless_running",
+    "SyneTune.C14Comp.observed_once",
+    "SyneTune.C14Comp.observed_only_reported_levels",
+    "SyneTune.C14Comp.no_pending_after_end",
+    # the clauses of the operation contract `OpOK` are necessary (witnesses replayed on the real code in `extra`)
+    "SyneTune.C14Comp.pending_only_running_counterexample",
+    "SyneTune.C14Comp.pending_only_running_counterexample_promoted",
+    "SyneTune.C14Comp.skipped_level_counterexample",
 ]
 TRUSTED = [
     "hand-written models lean/SyneTune/Model/{HB,SearcherState}.lean tied to /repo by the hb stream run with the real "
@@ -33,6 +49,9 @@ TRUSTED = [
 ASSUMPTIONS = [
     "workers report consecutive resource levels within a run (a resumed run starts at resume_from+1 with checkpointing, at 1 without)",
     "cost attribute not used in these cases (cost labels are stored under a different metric name)",
+    "operation contract OpOK of Props/C14Comp.lean: on_trial_remove only for trials the scheduler does not consider running "
+    "(the Tuner calls it right after a STOP/PAUSE answer; externally stopped trials are signalled by on_trial_error), "
+    "on_trial_complete with the last result reported; both are what the scripted worker pool of streams/hb.py does",
 ]
 RULE = ("cases: real HyperbandScheduler(type in stopping, promotion) with searcher bayesopt / hypertune, every searcher_data "
         "policy, register_pending_myopic on/off, 1-4 brackets, checkpointing on/off, failures and completions; distinct by "
@@ -79,6 +98,9 @@ def data_monitor(spec, lines, events):
     last_result = {}
     levels = None
     max_t = ctor["max_t"]
+    lastrep = {}       # trial -> largest level reported while the scheduler considered it running
+    pause_resume = ctor["type"] not in ("stopping", "rush_stopping")
+    all_levels = sorted(lines[0][1].get("rung_levels", [])) if lines and lines[0][1] else []
     for (inp, impl), ev in zip(lines[1:], events):
         if impl is None or "err" in impl:
             continue
@@ -91,6 +113,8 @@ def data_monitor(spec, lines, events):
             t_, r_ = ev["trial"], ev["resource"]
             first_time = (t_, r_) not in reported
             reported.setdefault((t_, r_), []).append(ev["metric"])
+            if ev.get("prev_decision") == "CONTINUE" and not ev.get("late"):
+                lastrep[t_] = max(lastrep.get(t_, 0), r_)
             if rung_levels is None and lines and lines[0][1]:
                 rung_levels = set(lines[0][1].get("rung_levels", []))
             if first_time and ev.get("prev_decision") == "CONTINUE" and not ev.get("late"):
@@ -134,6 +158,29 @@ def data_monitor(spec, lines, events):
                                 f"searcher_data={policy}: trial {t} has observations at levels {sorted(have.get(t, set()))}, the policy "
                                 f"selects {sorted(expected.get(t, set()))} of the levels it reported", "detail": ev})
                     break
+        # (a) of Props/C14Comp.lean read on the real state: a pending level is above the last level the trial
+        # reported and not above the milestone it is running to (`_running[t]["milestone"]` for pause/resume
+        # types, the next rung level of its bracket above the last report, or max_t, for stopping types)
+        miles = {}
+        if pause_resume:
+            for sysr in impl.get("running", []):
+                for tid_, ms_, _rf in sysr:
+                    miles[tid_] = ms_
+        else:
+            for tid_, dec_, br_ in impl.get("active", []):
+                if dec_ == "CONTINUE":
+                    above = [lv for lv in all_levels[br_:] if lv > lastrep.get(tid_, 0)]
+                    miles[tid_] = min(above) if above else max_t
+        for t, r in impl["pending"]:
+            if r <= lastrep.get(t, 0):
+                out.append({"signature": "c14:pending-not-above-last-report", "what":
+                            f"pending (trial {t}, level {r}) although trial {t} already reported level {lastrep.get(t, 0)}", "detail": ev})
+            if t in miles and r > miles[t]:
+                out.append({"signature": "c14:pending-above-milestone", "what":
+                            f"pending (trial {t}, level {r}) above the milestone {miles[t]} trial {t} is running to", "detail": ev})
+            if t in miles and policy == "rungs" and r != miles[t]:
+                out.append({"signature": "c14:pending-not-the-milestone", "what":
+                            f"searcher_data=rungs: pending (trial {t}, level {r}) is not the milestone {miles[t]}", "detail": ev})
         for t, r in impl["pending"]:
             if t not in running:
                 out.append({"signature": "c14:pending-of-trial-not-running", "what":
@@ -160,3 +207,67 @@ def run_impl(spec):
 
 def nontrivial(trace):
     return bool(trace.get("meta", {}).get("nontrivial"))
+
+
+# ---------------------------------------------------------------------------------
+# Lean counterexamples of Props/C14Comp.lean replayed on the real scheduler + real searcher.
+# They are OUTSIDE the operation contract (OpOK): they show that each clause of the contract is
+# necessary, and that the model agrees with the code on what happens there.
+
+_CTOR_BASE = {"mode": "min", "max_t": 9, "rung_levels": [1, 3], "brackets": 1, "searcher": "bayesopt",
+              "max_resource_attr": False, "random_seed": 0}
+
+WITNESSES = [
+    {"lean": "SyneTune.C14Comp.pending_only_running_counterexample",
+     "ctor": dict(_CTOR_BASE, type="promotion", searcher_data="rungs"),
+     "ops": [["suggest"], ["remove", 0]],
+     "expect_pending": [[0, 1]], "expect_decision": [0, "PAUSE"]},
+    {"lean": "SyneTune.C14Comp.pending_only_running_counterexample_promoted",
+     "ctor": dict(_CTOR_BASE, type="promotion", searcher_data="all"),
+     "ops": [["suggest"], ["result", 0, 1, 1.0], ["remove", 0], ["suggest"], ["result", 1, 1, 2.0], ["remove", 1],
+             ["suggest"], ["result", 0, 2, 1.0], ["remove", 0]],
+     "expect_pending": [[0, 3]], "expect_decision": [0, "PAUSE"]},
+    {"lean": "SyneTune.C14Comp.skipped_level_counterexample",
+     "ctor": dict(_CTOR_BASE, type="stopping", searcher_data="all"),
+     "ops": [["suggest"], ["result", 0, 1, 1.0], ["result", 0, 2, 1.0], ["result", 0, 3, 1.0],
+             ["suggest"], ["result", 1, 1, 0.5], ["result", 1, 3, 2.0]],
+     "expect_pending_contains": [1, 2], "expect_decision": [1, "STOP"]},
+]
+
+
+def replay_witness(w):
+    """drive the real HyperbandScheduler + GPMultiFidelitySearcher through the operations of a Lean witness"""
+    from syne_tune.backend.trial_status import Trial
+    sch, _rs = hb.make_scheduler(dict(w["ctor"]))
+    trials = {}
+    next_id = 0
+    for op in w["ops"]:
+        if op[0] == "suggest":
+            sg = sch.suggest(next_id)
+            if sg.spawn_new_trial_id:
+                trials[next_id] = Trial(trial_id=next_id, config=sg.config, creation_time=hb.EPOCH0)
+                sch.on_trial_add(trials[next_id])
+                next_id += 1
+        elif op[0] == "result":
+            sch.on_trial_result(trials[op[1]], {hb.METRIC: op[3], hb.RES: op[2]})
+        elif op[0] == "remove":
+            sch.on_trial_remove(trials[op[1]])
+    snap = hb.snapshot(sch)
+    dec = {a[0]: a[1] for a in snap["active"]}
+    t_, d_ = w["expect_decision"]
+    ok = dec.get(t_) == d_
+    if "expect_pending" in w:
+        ok = ok and snap["pending"] == w["expect_pending"]
+    if "expect_pending_contains" in w:
+        ok = ok and list(w["expect_pending_contains"]) in snap["pending"]
+    return {"lean": w["lean"], "real_code_pending": snap["pending"], "real_code_decision": [t_, dec.get(t_)],
+            "reproduced_on_real_code": bool(ok)}
+
+
+def extra(ctx):
+    """the `_counterexample` theorems of Props/C14Comp.lean (histories outside the operation contract) on the real code"""
+    res = [replay_witness(w) for w in WITNESSES]
+    ctx.notes["lean_counterexamples_replayed"] = res
+    bad = [r["lean"] for r in res if not r["reproduced_on_real_code"]]
+    if bad:
+        raise RuntimeError(f"Lean counterexample not reproduced by the real code (model and code disagree outside the contract): {bad}")
